@@ -233,6 +233,7 @@ class Affine(Transform):
         combined with non-unitary scales). In case the transform has a
         negative determinant, set the `_direct` attribute to False.
         """
+        self._direct = True
         vec12 = np.zeros((12,))
         vec12[0:3] = aff[:3, 3]
         # Use SVD to find orthogonal and diagonal matrices such that
@@ -377,6 +378,7 @@ class Rigid(Affine):
         has a negative determinant, set the `_direct` attribute to
         False.
         """
+        self._direct = True
         vec12 = np.zeros((12,))
         vec12[:3] = aff[:3, 3]
         R = aff[:3, :3]
@@ -409,6 +411,7 @@ class Similarity(Affine):
         has a negative determinant, set the `_direct` attribute to
         False.
         """
+        self._direct = True
         vec12 = np.zeros((12,))
         vec12[:3] = aff[:3, 3]
         ## A = s R ==> det A = (s)**3 ==> s = (det A)**(1/3)
